@@ -199,7 +199,10 @@ func newViewCell(bin, timeout string) (*viewCell, error) {
 	}
 	// every other cell calls topic t3 "t3#ephemeral" and channel c2 "c2#ephemeral" on the wire (upstream answers, upstream
 	// queries, nsqadmin's own routes); the model and the comparison go on speaking of t3 and c2
-	c.eph = atomic.AddInt64(&viewCellN, 1)%2 == 0
+	k := atomic.AddInt64(&viewCellN, 1)
+	c.eph = k%2 == 0
+	// ... and every third cell has N2 and N3 report the same hostname (two nsqd on one machine)
+	c.sameHost = k%3 == 0
 	return &viewCell{cell: c, bin: bin, children: map[string]*child{}, timeout: timeout,
 		client: &http.Client{Timeout: 30 * time.Second, Transport: &http.Transport{DisableKeepAlives: true}}}, nil
 }
@@ -343,6 +346,22 @@ func e2eOf(v interface{}) jmap {
 	return jmap{"count": pairOf(e["count"]), "p99": q("0.99"), "p50": q("0.5")}
 }
 
+// nodeKey: which nsqd a row is about -- by its address (the hostname two nsqd may share)
+func (vc *viewCell) nodeKey(nm jmap) string {
+	if a := asStr(nm["node"]); a != "" {
+		if n := vc.cell.nameOfAddr(a); n != a && n != "DEAD" {
+			return n
+		}
+	}
+	if p, ok := nm["http_port"].(json.Number); ok {
+		a := "127.0.0.1:" + p.String()
+		if n := vc.cell.nameOfAddr(a); n != a && n != "DEAD" {
+			return n
+		}
+	}
+	return asStr(nm["hostname"])
+}
+
 func chanFields(c jmap) jmap {
 	return jmap{"e2e": e2eOf(c["e2e_processing_latency"]), "depth": pairOf(c["depth"]), "backend_depth": pairOf(c["backend_depth"]), "memory_depth": pairOf(c["memory_depth"]),
 		"in_flight_count": pairOf(c["in_flight_count"]), "deferred_count": pairOf(c["deferred_count"]),
@@ -378,7 +397,7 @@ func (vc *viewCell) normalise(kind string, doc jmap) interface{} {
 		nodes := jmap{}
 		for _, n := range asArr(doc["nodes"]) {
 			nm := asMap(n)
-			nodes[asStr(nm["hostname"])] = jmap{"depth": pairOf(nm["depth"]), "message_count": pairOf(nm["message_count"]),
+			nodes[vc.nodeKey(nm)] = jmap{"depth": pairOf(nm["depth"]), "message_count": pairOf(nm["message_count"]),
 				"e2e": e2eOf(nm["e2e_processing_latency"])}
 		}
 		return jmap{"depth": pairOf(doc["depth"]), "backend_depth": pairOf(doc["backend_depth"]),
@@ -391,9 +410,9 @@ func (vc *viewCell) normalise(kind string, doc jmap) interface{} {
 		names := []string{}
 		for _, n := range asArr(doc["nodes"]) {
 			nm := asMap(n)
-			nodes[asStr(nm["hostname"])] = jmap{"depth": pairOf(nm["depth"]), "message_count": pairOf(nm["message_count"]),
+			nodes[vc.nodeKey(nm)] = jmap{"depth": pairOf(nm["depth"]), "message_count": pairOf(nm["message_count"]),
 				"e2e": e2eOf(nm["e2e_processing_latency"])}
-			names = append(names, asStr(nm["hostname"]))
+			names = append(names, vc.nodeKey(nm))
 		}
 		sum["nodes"] = names
 		clients := []string{}
@@ -410,7 +429,7 @@ func (vc *viewCell) normalise(kind string, doc jmap) interface{} {
 				tm := asMap(t)
 				ts = append(ts, []interface{}{asStr(tm["topic"]), asBool(tm["tombstoned"])})
 			}
-			nodes[asStr(nm["hostname"])] = jmap{"nremote": int64(len(asArr(nm["remote_addresses"]))), "ood": asBool(nm["out_of_date"]),
+			nodes[vc.nodeKey(nm)] = jmap{"nremote": int64(len(asArr(nm["remote_addresses"]))), "ood": asBool(nm["out_of_date"]),
 				"topics": ts}
 		}
 		return jmap{"nodes": nodes}
